@@ -690,9 +690,11 @@ long sim_write(int fd, const void *buf, unsigned long n)
 		const Fault *f;
 		K.tick(S_PWRITE, &f);
 		SPipe &p = K.pipes[(size_t) d->pipe];
+		long done = 0;		// a blocking write returns only when everything is in the pipe
 		for (;;) {
 			int r; K.pipe_refs(d->pipe, &r, nullptr);
 			if (r == 0) {
+				if (done > 0) { K.ev("write_pipe", done, 0); return done; }
 				K.probe("sigpipe_raised");
 				K.ev("write_pipe", -EPIPE, 0);
 				if (K.disp[SIGPIPE] == 0) K.end_run(OUT_KILLED_SIGPIPE, "write to a pipe with no reader; SIGPIPE disposition is default");
@@ -702,18 +704,23 @@ long sim_write(int fd, const void *buf, unsigned long n)
 			}
 			long room = p.cap - (long) p.buf.size();
 			if (room > 0) {
-				long k = (long) n < room ? (long) n : room;
-				if (k < (long) n) K.probe("pipe_partial_write");
-				p.buf.append((const char *) buf, (size_t) k);
-				K.ev("write_pipe", k, 0);
-				// bytes moved through a pipe are progress bounded by the data (capacities go down to one
-				// byte): they do not count against the syscall budgets
-				if (K.step_calls > 0) K.step_calls--;
-				if (K.run_calls > 0) K.run_calls--;
-				return k;
+				long left = (long) n - done;
+				long k = left < room ? left : room;
+				if (k < left) K.probe("pipe_partial_write");
+				p.buf.append((const char *) buf + done, (size_t) k);
+				done += k;
+				if (d->nonblock || done == (long) n) {
+					K.ev("write_pipe", done, 0);
+					// bytes moved through a pipe are progress bounded by the data (capacities go down to one
+					// byte): they do not count against the syscall budgets
+					if (K.step_calls > 0) K.step_calls--;
+					if (K.run_calls > 0) K.run_calls--;
+					return done;
+				}
+				K.probe("blocking_pipe_write_waits");
 			}
 			K.probe("pipe_full");
-			if (d->nonblock) { K.ev("write_pipe", -EAGAIN, 0); errno = EAGAIN; return -1; }
+			if (d->nonblock) { if (done > 0) { K.ev("write_pipe", done, 0); return done; } K.ev("write_pipe", -EAGAIN, 0); errno = EAGAIN; return -1; }
 			if (!K.any_child_can_progress()) K.end_run(OUT_DEADLOCK, "write on a full pipe nobody will ever read");
 			K.child_step();
 			K.tick(S_ANY, nullptr);
